@@ -1,2 +1,5 @@
 /- C16 executable model (umbrella). Core-only: each part mirrors one btcd file. -/
+import BV.C16.Spec
 import BV.C16.Base58
+import BV.C16.Bech32
+import BV.C16.Address
